@@ -185,7 +185,7 @@ stably sorted rows is an admissible result. -/
 theorem C01_model_refines_spec (descs : List Bool) (skip limit : Option Nat) (P : List PRow) :
     admissible descs skip limit P
       ((window skip limit (sortBy (fun a b => keysLe descs a.key b.key) P)).map (·.vals)) = true := by
-  unfold admissible
+  unfold admissible admissibleBy
   have hmap : ∀ (xs : List PRow), (window skip limit (xs.map (·.key))) = (window skip limit xs).map (·.key) := by
     intro xs
     unfold window
@@ -223,7 +223,7 @@ theorem C01_model_refines_spec_query (g : Graph) (de : Bool) (q : Query) (t : Ta
     (hc : q.ret.collectCols.all (!·) = true) (h : evalQuery g de q = .ok t) :
     specQuery g de q t = .ok := by
   unfold evalQuery at h
-  unfold specQuery
+  unfold specQuery specQueryWith
   cases hr : evalClauses g de q.clauses [[]] with
   | error e => simp [hr, bind, Except.bind] at h
   | ok rows =>
@@ -246,7 +246,7 @@ theorem C01_model_refines_spec_query (g : Graph) (de : Bool) (q : Query) (t : Ta
 /-- without SKIP/LIMIT an admissible result has exactly as many rows as the reference -/
 theorem C01_admissible_length (descs : List Bool) (P : List PRow) (out : List (List Val))
     (h : admissible descs none none P out = true) : out.length = P.length := by
-  unfold admissible at h
+  unfold admissible admissibleBy at h
   simp only [Bool.and_eq_true, beq_iff_eq] at h
   rw [h.1]
   simp [window, (sortBy_perm _ P).length_eq]
@@ -336,10 +336,14 @@ theorem C01_order_int_float_tie (i : Int) (ds : List Bool) (a b : List Val) :
     simp [Atom.ordCmp, Atom.rank, Atom.num?, dyCmp, compare, compareOfLessAndEq]
   simp [cmpKeys, Val.ordCmp, this]
 
-/-- the pinned tree used the index order, which never ties across Integer/Float: the second
-sort key was ignored for `k = 1` / `k = 1.0` -/
+/-- the engine sorts with the index order, which never ties across Integer/Float: for
+`ORDER BY n.k DESC, n.j` over `(k = 1.0, j = 0)` and `(k = 1, j = 'a')` the specification
+consults `j` (strings before numbers: the `k = 1` row first), the engine's order does not
+(known finding `orderby-int-float-secondary-key`) -/
 theorem C01_counterexample_order_tie :
-    Atom.ordCmpLegacy (.int 1) (.flt 1 0) = .lt ∧ Atom.ordCmp (.int 1) (.flt 1 0) = .eq := by
+    Atom.ordCmpLegacy (.int 1) (.flt 1 0) = .lt ∧ Atom.ordCmp (.int 1) (.flt 1 0) = .eq
+      ∧ cmpKeys [true, false] [.flt 1 0, .int 0] [.int 1, .str ['a']] = .gt
+      ∧ cmpKeysLegacy [true, false] [.flt 1 0, .int 0] [.int 1, .str ['a']] = .lt := by
   decide
 
 /-! ## variable-length patterns
